@@ -38,6 +38,11 @@ func (cok *CollationOrderKey[K]) Transform(k K) ([]byte, []byte) {
 	// key instead of growing with every operation
 	key := append([]byte(nil), cok.c.Key(cok.buf, b)...)
 	cok.buf.Reset()
+
+	// sort keys of collators that ignore trailing levels are not prefix-free
+	// ("a" vs "ab" under Loose), two zero bytes terminate them: no weight
+	// starts with 00 00, so the order is unchanged
+	key = append(key, 0, 0)
 	return b, key
 }
 func (cok *CollationOrderKey[K]) Restore(b []byte) K { return cok.src }
